@@ -357,10 +357,54 @@ def rule_gf6(chk: Check):
     chk.units["helper_cache_keys"] = n_sites
 
 
+def rule_gf7_gf8(chk: Check):
+    """GF7: generator classes keep no class-level mutable containers (a second generation in the same process would start
+    from the first one's helper cache).  GF8: when a grammar defines a rule name twice (xonsh.gram does, for `fstring`), the
+    later definition wins — the shipped parser was generated that way."""
+    n = 0
+    for rel in ("tasks/generator.py", "pegen/parser_generator.py", "pegen/python_generator.py", "pegen/grammar.py"):
+        mod = parse_py(rel)
+        for cls in [c for c in ast.walk(mod) if isinstance(c, ast.ClassDef)]:
+            for st in cls.body:
+                val = name = None
+                if isinstance(st, ast.Assign) and isinstance(st.targets[0], ast.Name):
+                    name, val = st.targets[0].id, st.value
+                elif isinstance(st, ast.AnnAssign) and isinstance(st.target, ast.Name) and st.value is not None:
+                    name, val = st.target.id, st.value
+                if name is None:
+                    continue
+                n += 1
+                chk.count("GF7-generator-state")
+                mutable = isinstance(val, (ast.List, ast.Dict, ast.Set, ast.ListComp, ast.DictComp, ast.SetComp)) or (
+                    isinstance(val, ast.Call) and norm_stmt(val.func) in ("list", "dict", "set", "defaultdict", "deque", "Counter"))
+                chk.require(not mutable, "GF7-generator-state", f"{rel}:{cls.name}.{name}", f"{rel}:{st.lineno}",
+                            f"`{cls.name}.{name}` is a class-level mutable container: generator instances share it, so what a second run "
+                            f"in the same process emits depends on the first")
+    chk.count("GF7-generator-state")
+    chk.ok("GF7-generator-state", "classes-scanned", "pegen/", f"{n} class attributes")
+    gram = parse_py("pegen/grammar.py")
+    init = _find_method(gram, "Grammar", "__init__")
+    chk.count("GF8-last-definition-wins")
+    ok = False
+    if init is not None:
+        for st in ast.walk(init):
+            if isinstance(st, ast.Assign) and norm_stmt(st.targets[0]) == "self.rules" and isinstance(st.value, ast.DictComp) and \
+                    norm_stmt(st.value.key).endswith(".name"):
+                ok = True
+            if isinstance(st, ast.Assign) and isinstance(st.targets[0], ast.Subscript) and norm_stmt(st.targets[0].value) == "self.rules":
+                ok = True
+        if any(isinstance(c, ast.Call) and norm_stmt(c.func) == "self.rules.setdefault" for c in ast.walk(init)):
+            ok = False
+    chk.require(ok, "GF8-last-definition-wins", "pegen/grammar.py:Grammar.__init__", f"pegen/grammar.py:{init.lineno if init else 0}",
+                "the rule table must be filled so that a later definition of a name replaces an earlier one (plain dict insertion); "
+                "the grammars in this repository define `fstring` twice and the shipped parser follows the later definition")
+
+
 def run(chk: Check):
     rule_gf1(chk)
     rule_gf2(chk)
     rule_gf3(chk)
     rule_gf4_gf5(chk)
     rule_gf6(chk)
+    rule_gf7_gf8(chk)
     chk.floor("GF6-helper-identity", 2)
